@@ -1,6 +1,7 @@
 CONSTANTS
   Threads = {t1, t2}
   Bugs = {}
+  Ghosts = TRUE
   MaxK = 1
   MaxCtl = 3
   Cap = 3
